@@ -253,7 +253,7 @@ def weak(site: int, mut: int, rsel: int, tag: str, vsel: int,
     pre: 0 <= site < 28 and 0 <= mut < 7 and 0 <= rsel < 90
     pre: 1 <= len(tag) <= 40 and tag != '!'
     pre: not tag.startswith('tag:yaml.org,2002:')
-    pre: 0 <= vsel < 17 and 0 <= ksel < 14
+    pre: 0 <= vsel < 20 and 0 <= ksel < 15
     post: __return__
     """
     from vlib.common import tier
